@@ -257,6 +257,9 @@ class SchedLock(object):
 
     def acquire(self, blocking=True, timeout=-1):
         me = self._me()
+        if not blocking and self.owner is not None:
+            self.log.append((me, 'acquire-failed', None))
+            return False
         while self.owner is not None:
             if self.owner == me:
                 self.s.abort = ('deadlock', me, 'self-deadlock on ' + self.name)
@@ -463,8 +466,9 @@ def run_sched(c, P):
             sc.phases.append(lambda w_, s_: (hconn.reply_101(w_, s_) + [0x89, 0x01] + ping) if hconn.request_key(w_, s_) else None)
             w.default_script = sc
         out = []
+        gen = ws.connect(poll=1e9, ping_rate=0, ping_timeout=None, close_timeout=None)
         try:
-            for ev in ws.connect(poll=1e9, ping_rate=0, ping_timeout=None, close_timeout=None):
+            for ev in gen:
                 if ev.name == 'connecting':
                     ws.state.session._lock = w.session_lock = SchedLock(sched)
                 elif ev.name == 'ready':
@@ -473,6 +477,11 @@ def run_sched(c, P):
                 elif ev.name == 'ping':
                     sent[name].append((10, ping))
                 out.append(ev.name)
+                if P.get('loop_abandon_at') == ev.name:
+                    # the consumer stops iterating here and closes the generator (C13), whatever other threads are doing
+                    sched.point(name, 'abandon')
+                    break
+            gen.close()
         finally:
             state['ready'] = True
             sched.unblock_waiters('ready-gate')
@@ -637,6 +646,14 @@ def run_sched(c, P):
             c.fail('C11: %d message(s) never reached the wire' % sum(len(q) for q in left.values()),
                    sig='C11: message lost')
         cls.add('frames:%d' % len(frames))
+    if 'C13' in tags:
+        for s_ in w.socks:
+            if s_ is sock:
+                continue          # (the directly constructed socket of the loop-less variants; unused here)
+            if s_.connected and not s_.closed:
+                c.fail('C13: socket left open after the loop was abandoned at %s while another thread was sending (loop events %s)'
+                       % (P.get('loop_abandon_at'), state.get('loop_events')), sig='C13: socket left open after abandoning (threads)')
+        cls.add('abandoned@%s' % P.get('loop_abandon_at'))
     if 'C18' in tags:
         # the loop must have delivered the server's Ping (and written its Pong) although an application send was stalled:
         # receiving never waits for a sender (a deadlock was reported above)
